@@ -75,6 +75,11 @@ for mod in [251, 2, 65537]:
                           stubs=["math/big.Int with shared storage: struct copies share the limbs"],
                           functions=["mod.(*Int).%s" % hn, "mod.(*Int).%s" % mn], bound="modulus %d, all values; copy ; one mutating call on either side" % mod,
                           tiers=(["quick", "thorough"] if mod == 251 and mn in ("Add", "Zero", "Neg") else ["thorough"])))
+for wm, wn in enumerate(["2^64+13", "2^127-1", "ed25519-order"]):
+    for op, on in enumerate(["NewInt64", "SetInt64", "SetUint64", "Init64"]):
+        H.append(dict(name="mod.Int.%s-wide-%s" % (on, wn), pkg="./group/mod", files=["harness/C05/modint.go"], entry="HarnessModIntWide", mode="int", params={"p0": wm, "p1": op}, validate=3,
+                      stubs=["math/big.Int as mathematical integers"], functions=["mod.NewInt64", "mod.(*Int).Init64", "mod.(*Int).SetInt64", "mod.(*Int).SetUint64"],
+                      bound="modulus %s (wider than a machine word), ALL int64 / uint64 arguments" % wn, tiers=(["quick", "thorough"] if wm != 1 else ["thorough"])))
 for q in [13, 251]:
     for t, tn in enumerate(["projPoint", "extPoint"]):
         for op, on in enumerate(["Add", "Sub", "Neg"]):
